@@ -724,10 +724,16 @@ func refreshRing(r *ringDescriber) error {
 
 	prevHosts := r.session.ring.currentHosts()
 
+	// host ids already handled in this refresh: the cluster may report a node twice
+	seen := make(map[string]struct{}, len(hosts))
 	for _, h := range hosts {
 		if r.session.cfg.filterHost(h) {
 			continue
 		}
+		if _, dup := seen[h.HostID()]; dup {
+			continue
+		}
+		seen[h.HostID()] = struct{}{}
 
 		if host, ok := r.session.ring.addHostIfMissing(h); !ok {
 			r.session.startPoolFill(h)
